@@ -77,6 +77,30 @@ def searchAll : List String :=
    firstDiff "reset" genReset (fun n => ((reset n).1, some (reset n).2)),
    firstDiff "apply_timestep" genTickPower (fun n => (tickDown (tickUp n), none))]
 
+/-! the interfaces' own methods: EVERY context (interface × node / no node × node state × default_gateway_hello) -/
+def allCtx : List IfCtx :=
+  [false, true].flatMap fun e => [true, false].flatMap fun l => [NicKind.wired, .ipWired, .wireless].flatMap fun k =>
+  [true, false].flatMap fun hn => [PState.on, .off, .booting, .shuttingDown].flatMap fun st => [false, true].map fun hello =>
+    { nic := { enabled := e, linked := l, kind := k }, hasNode := hn, nodeSt := st, hello := hello }
+
+def showOut (o : IOut) : String :=
+  s!"{showNic o.1} " ++ (match o.2 with | none => "RAISES" | some none => "answer=None" | some (some b) => s!"answer={b}")
+
+def firstDiffI (name : String) (f g : IfCtx → IOut) : String :=
+  match allCtx.find? (fun c => f c != g c) with
+  | none => s!"{name} ok {allCtx.length}"
+  | some c => s!"{name} counter-model interface={showNic c.nic} node={if c.hasNode then showSt c.nodeSt else "None"} has_default_gateway_hello={c.hasNode && c.hello} | translated: {showOut (f c)} | model: {showOut (g c)}"
+
+def ctxOn (c : IfCtx) : Bool := c.hasNode && c.nodeSt == .on
+
+def searchIfaces : List String :=
+  [firstDiffI "WiredNetworkInterface.enable" genWiredEnable (fun c => (c.nic.enable (ctxOn c), some (some (c.nic.enable (ctxOn c)).enabled))),
+   firstDiffI "IPWiredNetworkInterface.enable" genIpWiredEnable (fun c => (c.nic.enable (ctxOn c), some (some true))),
+   firstDiffI "WirelessNetworkInterface.enable" genWirelessEnable (fun c => (c.nic.enableNoLink (ctxOn c), some (some (c.nic.enableNoLink (ctxOn c)).enabled))),
+   firstDiffI "IPWirelessNetworkInterface.enable" genIpWirelessEnable (fun c => (c.nic.enableNoLink (ctxOn c), some (some (c.nic.enableNoLink (ctxOn c)).enabled))),
+   firstDiffI "WiredNetworkInterface.disable" genWiredDisable (fun c => (c.nic.disable, some (some true))),
+   firstDiffI "WirelessNetworkInterface.disable" genWirelessDisable (fun c => (c.nic.disable, some (some true)))]
+
 def main : IO Unit := do
-  for l in searchAll do
+  for l in searchAll ++ searchIfaces do
     IO.println l
